@@ -157,9 +157,97 @@ def run_huge(ctx, n):
     ctx.run_hypothesis(huge_cases(), check, n)
 
 
+# ---------------------------------------------------------------------------
+# history: scale s0 written, info replaced through the same accessor (new
+# sharding parameters for the not-yet-written scale s1), scale s1 written
+# ---------------------------------------------------------------------------
+def info_history_cases():
+    from hypothesis import strategies as st
+
+    @st.composite
+    def strat(draw):
+        c = draw(sc.shard_cases(max_grid=3, min_chunks=1))
+        c["bits2"] = [draw(st.integers(0, 3)) for _ in range(3)]
+        c["enc2"] = draw(st.sampled_from(["raw", "gzip"]))
+        c["strategy"] = draw(st.sampled_from(["on disk", "in memory"]))
+        return c
+    return strat()
+
+
+def check_info_history(ctx, case):
+    import json
+    from neuroglancer_scripts import precomputed_io
+    from neuroglancer_scripts.sharded_file_accessor import \
+        ShardedFileAccessor
+    from vlib import datasets as ds
+    if not case["order"]:
+        return False
+    d = ctx.tmpdir("shardhist")
+    try:
+        s0 = sc.scale_info(case)
+        s1 = json.loads(json.dumps(s0))
+        s1["key"] = "s1"
+        info1 = ds.make_info("uint8", 1, [s0, s1])
+        acc = ShardedFileAccessor(d, strategy=case["strategy"])
+        precomputed_io.get_IO_for_new_dataset(info1, acc)
+        order = [tuple(p) for p in case["order"]]
+        for pos in order:
+            acc.store_chunk(sc.payload(case["seed"], pos), "s0",
+                            sc.coords_of(pos, case["cs"], s0["size"]))
+        acc.close()
+        s1b = json.loads(json.dumps(s1))
+        s1b["sharding"] = ds.sharding_dict(case["bits2"][0], case["bits2"][1],
+                                           case["bits2"][2], case["enc2"],
+                                           case["enc2"])
+        info2 = ds.make_info("uint8", 1, [s0, s1b])
+        # the documented way to change the info of a dataset
+        precomputed_io.get_IO_for_new_dataset(info2, acc, overwrite_info=True)
+        for pos in order:
+            acc.store_chunk(sc.payload(case["seed"] + 1, pos), "s1",
+                            sc.coords_of(pos, case["cs"], s0["size"]))
+        acc.close()
+        with open(os.path.join(d, "info")) as f:
+            disk = json.load(f)
+        for sidx, key, seed in ((0, "s0", case["seed"]),
+                                (1, "s1", case["seed"] + 1)):
+            sh = disk["scales"][sidx]["sharding"]
+            params = {k: sh[k] for k in (
+                "minishard_bits", "shard_bits", "preshift_bits",
+                "minishard_index_encoding", "data_encoding")}
+            for pos in order:
+                cid = sc.chunk_id(pos, case["grid"])
+                try:
+                    got = sharded_spec.read(os.path.join(d, key), params, cid,
+                                            strict_gzip=False)
+                except sharded_spec.ShardSpecError as exc:
+                    got = exc
+                if got != sc.payload(seed, pos):
+                    ctx.fail("after the info was replaced through the same "
+                             "accessor, chunk %s of scale %s (sharding %s in "
+                             "the info on disk) is not retrievable by the "
+                             "spec reader: %r" % (list(pos), key, params,
+                                                  got if not isinstance(
+                                                      got, bytes)
+                                                  else got[:10]))
+        return case["bits2"] != case["bits"]
+    finally:
+        ctx.rmtree(d)
+
+
+def run_info_history(ctx, n):
+    def check(ctx, case):
+        nt = check_info_history(ctx, case)
+        ctx.record(case, bool(nt), [case["strategy"]])
+    ctx.run_hypothesis(info_history_cases(), check, n)
+
+
 def replay(ctx, case):
+    if "bits2" in case:
+        return check_info_history(ctx, case)
     check_case(ctx, case)
 
 
 SUBS = [Sub("write_spec_read", run, replay, quick=3000, thorough=60000),
-        Sub("huge_ids", run_huge, replay, quick=400, thorough=8000)]
+        Sub("huge_ids", run_huge, replay, quick=400, thorough=8000),
+        Sub("info_replaced", run_info_history, replay, quick=300,
+            thorough=6000)]
